@@ -30,18 +30,30 @@ fn c03_k(k: usize) -> Option<Vec<(String, String)>> {
 }
 
 fn header_k(k: usize, delim: &str) -> Option<Vec<(String, String)>> {
-    // through the public file API: header line of the composition output
+    for (norm, nrec, threads) in [(true, 1usize, 1usize), (false, 1, 1), (true, 0, 2), (false, 0, 2), (true, 3, 4), (false, 3, 4)] {
+        if let Some(mut w) = header_k_cfg(k, delim, norm, nrec, threads) {
+            w.push(("norm".into(), norm.to_string())); w.push(("records".into(), nrec.to_string())); w.push(("threads".into(), threads.to_string()));
+            return Some(w);
+        }
+    }
+    None
+}
+
+fn header_k_cfg(k: usize, delim: &str, norm: bool, nrec: usize, threads: usize) -> Option<Vec<(String, String)>> {
+    // through the public file API: header line of the composition output (both writers: normalised = mapped, counts = batched)
     let sc = Scratch::new("c03");
     let inp = sc.path("in.fa");
     let out = sc.path("out.txt");
-    write_fasta(&inp, &[b"ACGTACGTTGCAACGT".to_vec()]);
+    let recs: Vec<Vec<u8>> = (0..nrec).map(|i| format!("ACGTACGTTGCAACGT{}", "AC".repeat(i)).into_bytes()).collect();
+    write_fasta(&inp, &recs);
     let d = delim.to_string();
     let (i2, o2) = (inp.clone(), out.clone());
     let r = guarded(move || {
         let mut c = composition::oligo::OligoComputer::new(i2, o2, k);
         c.set_header(true);
+        c.set_norm(norm);
         c.set_delim(d);
-        c.set_threads(1);
+        c.set_threads(threads);
         c.vectorise()
     });
     let mut want: Vec<String> = Vec::new();
@@ -50,7 +62,9 @@ fn header_k(k: usize, delim: &str) -> Option<Vec<(String, String)>> {
         Ok(Ok(())) => {
             let text = std::fs::read_to_string(&out).unwrap_or_default();
             let first = text.split('\n').next().unwrap_or("").to_string();
-            if first != want.join(delim) { format!("header line {:?} differs from the canonical k-mers in column order", &first[..first.len().min(80)]) } else { String::new() }
+            if first != want.join(delim) { format!("header line {:?} differs from the canonical k-mers in column order", &first[..first.len().min(80)]) }
+            else if text.matches('\n').count() != nrec + 1 || text.contains('\0') { format!("with the header the output has {} lines for {} records (or holds unwritten bytes)", text.matches('\n').count(), nrec) }
+            else { String::new() }
         }
         Ok(Err(e)) => format!("error: {}", e),
         Err(e) => format!("panic: {}", e),
